@@ -76,8 +76,10 @@ var (
 type link struct {
 	kind      string
 	tr        *transport.Transport
-	peer      io.ReadWriter  // the peer's end of the byte stream of the current Open
-	killPeer  func()         // the peer goes away abruptly
+	peer      io.ReadWriter // the peer's end of the byte stream of the current Open
+	killPeer  func()        // the peer goes away abruptly
+	sessCh    chan *sshsim.Session
+	alive     bool           // what IsAlive() said right before the last Close
 	srv       *sshsim.Server // the ssh kinds: the in-process server
 	closeDone chan struct{}  // closed when the last closeTransport's Close call returned
 	freeze    func()         // the peer hangs: connection up, nothing processed any more
@@ -124,6 +126,12 @@ func (l *link) readMarker(skipPreface bool) error {
 // newLink builds the Transport object for `kind` (system | system-netconf | system-ssh |
 // standard-shell | standard-netconf | telnet) and the peer's infrastructure, without opening.
 func newLink(kind string, readSize int, early *earlyPlan, sockTO ...time.Duration) (*link, error) {
+	return newLinkOpt(kind, readSize, early, nil, sockTO...)
+}
+
+// newLinkOpt: base != nil (ssh kinds) = a second transport to the SAME in-process server and user as
+// base (sessions of both arrive in open order).
+func newLinkOpt(kind string, readSize int, early *earlyPlan, base *link, sockTO ...time.Duration) (*link, error) {
 	lg, _ := logging.NewInstance()
 	// socket timeout: default 20 s for the ssh transports, 400 ms for telnet (its negotiation window
 	// is a quarter of it); the silence cases pass small ones
@@ -172,22 +180,29 @@ func newLink(kind string, readSize int, early *earlyPlan, sockTO ...time.Duratio
 			return l.readMarker(false)
 		}
 	case "system-ssh", "standard-shell", "standard-netconf":
-		srv, e := sshsim.NewServer()
-		if e != nil {
-			return l, fmt.Errorf("%w: %v", errSetup, e)
-		}
-		l.cleanup = append(l.cleanup, srv.Close)
-		l.srv = srv
-		sessCh := make(chan *sshsim.Session, 4)
-		release := make(chan struct{})
-		l.cleanup = append(l.cleanup, func() { close(release) })
-		srv.SetHandler(func(s *sshsim.Session) {
-			if kind == "system-ssh" {
-				s.Write([]byte(sshsim.ReadyMarker))
+		var srv *sshsim.Server
+		var sessCh chan *sshsim.Session
+		if base != nil && base.srv != nil {
+			srv, sessCh = base.srv, base.sessCh
+		} else {
+			var e error
+			srv, e = sshsim.NewServer()
+			if e != nil {
+				return l, fmt.Errorf("%w: %v", errSetup, e)
 			}
-			sessCh <- s
-			<-release
-		})
+			l.cleanup = append(l.cleanup, srv.Close)
+			sessCh = make(chan *sshsim.Session, 4)
+			release := make(chan struct{})
+			l.cleanup = append(l.cleanup, func() { close(release) })
+			srv.SetHandler(func(s *sshsim.Session) {
+				if kind == "system-ssh" {
+					s.Write([]byte(sshsim.ReadyMarker))
+				}
+				sessCh <- s
+				<-release
+			})
+		}
+		l.srv, l.sessCh = srv, sessCh
 		var opts []util.Option
 		tt := transport.StandardTransport
 		if kind == "system-ssh" { // the real ssh client: key auth (nobody types a password at this level), escape character off
@@ -302,7 +317,13 @@ func (l *link) open() error {
 		return e
 	}
 	l.pid = sshsim.SystemPid(l.tr.Impl)
-	return l.accept()
+	if err := l.accept(); err != nil {
+		return err
+	}
+	// what channel/driver code may do at any time: ask whether the transport is alive. It must be a
+	// pure query - every read parked after it must still be released by Close
+	l.alive = l.tr.IsAlive()
+	return nil
 }
 
 // openLink = newLink + open. An error wrapping errSetup means the harness (not the library) failed.
@@ -336,6 +357,9 @@ func (l *link) closeTransport(force bool, d time.Duration) bool {
 	l.closeDone = done
 	go func() {
 		defer func() { recover(); close(done) }()
+		// what channel/driver code does before closing: ask whether the transport is alive (must be
+		// harmless, in particular next to a parked Read)
+		l.alive = l.tr.IsAlive()
 		l.tr.Close(force)
 	}()
 	select {
